@@ -454,6 +454,17 @@ func (s Server) Serve(c context.Context, conn network.Conn) (err error) {
 				return
 			}
 
+			// The exchange is over, the hijack handler takes the connection from here and
+			// reads into the buffer the request was parsed from: finish the trace now,
+			// while the request is still what was received.
+			if s.EnableTrace && traceStarted {
+				for last := eventsToTrigger.pop(); last != nil; last = eventsToTrigger.pop() {
+					last(ctx.GetTraceInfo(), nil)
+				}
+				traceCtl.DoFinish(cc, ctx, nil)
+				traceStarted = false
+			}
+
 			// Hijack and block the connection until the hijackHandler return
 			s.HijackConnHandle(ctx.GetConn(), hijackHandler)
 			err = errHijacked
